@@ -23,13 +23,19 @@ def replay_olh(engine):
 
 
 # ---------------------------------------------------------------- C09
+def funcs(ctx, group):
+    """the generated definitions of OLP/Gen/Funcs.lean executed against the Go functions they were
+    translated from (validates the translator's reading of math/big, loops, receivers)"""
+    return run_olh(ctx, 'funcs', ['-group', group, '-cases', '6000' if ctx['tier'] == 'quick' else '200000'], name='funcs' + group)
+
+
 def run_c09(ctx):
     corpus = os.path.join(ctx['root'], 'corpus', 'C09')
     if ctx['tier'] == 'quick':
         args = ['-exhaustive', '4', '-random', '1500', '-gas', '500', '-leveldb', '15', '-corpus', corpus]
     else:
         args = ['-exhaustive', '5', '-random', '40000', '-gas', '10000', '-leveldb', '300', '-maxlen', '120', '-corpus', corpus]
-    return [run_olh(ctx, 'kv', args)]
+    return [run_olh(ctx, 'kv', args), funcs(ctx, '09')]
 
 
 def twin_args(ctx, quick, thorough):
@@ -73,6 +79,7 @@ def run_c02(ctx):
             only(run_olh(ctx, 'olvm', twin_args(ctx, ['-histories', '60', '-blocks', '12', '-maxtxs', '8'], ['-histories', '1200', '-blocks', '20', '-maxtxs', '10'])),
                  ['olvm-tx-changed-the-total', 'native-and-evm-balance-differ', 'sender-debit-is-not-gas-plus-value', 'app-closed-by-panic']),
             # the bid application (external_apps/bid): model OLP/Bid, theorems Props/C02Bid, every bid DeliverTx / block function step re-run by the model
+            funcs(ctx, '02'),
             run_olh(ctx, 'bidm', twin_args(ctx, ['-histories', '100', '-blocks', '16', '-maxtxs', '6'], ['-histories', '1500', '-blocks', '24', '-maxtxs', '8']))] + run_ledger(ctx)
 
 
@@ -136,7 +143,7 @@ def run_c20(ctx):
         args = ['-histories', '600', '-blocks', '24', '-maxtxs', '5', '-corpus', corpus]
     else:
         args = ['-histories', '8000', '-blocks', '30', '-maxtxs', '6', '-corpus', corpus]
-    return [run_olh(ctx, 'ons', args)]
+    return [run_olh(ctx, 'ons', args), funcs(ctx, '20')]
 
 
 def run_c12(ctx):
@@ -156,7 +163,7 @@ def run_c15(ctx):
         args = ['-histories', '350', '-blocks', '12', '-maxtxs', '6', '-maxwit', '4', '-exhaustive', '4', '-exhwit', '4']
     else:
         args = ['-histories', '3000', '-blocks', '16', '-maxtxs', '8', '-maxwit', '7', '-exhaustive', '8', '-exhwit', '7']
-    return [run_olh(ctx, 'ethtrk', args)]
+    return [run_olh(ctx, 'ethtrk', args), funcs(ctx, '15')]
 
 
 def run_c11(ctx):
@@ -226,7 +233,7 @@ PROPS = {
         run=run_c01, replay=replay_olh('twin'), level='proof', assumptions=SHELL_ASSUME,
         model_limits='environment independence of the 39 handlers themselves rests on the extracted envUses/mapRanges tables plus twin replicas (identity, role, witness flag differ; Go map order differs per run), not on per-handler proofs; IAVL determinism is trusted (validated under C09)'),
     'C02': dict(
-        lean_modules=['OLP.Props.C02', 'OLP.Props.C02Facts', 'OLP.Props.C02Funcs', 'OLP.Props.C02Bid'], namespaces=['OLP.Props.C02'],
+        lean_modules=['OLP.Props.C02', 'OLP.Props.C02Facts', 'OLP.Props.C02Funcs', 'OLP.Props.C02Bid'], lean_targets=['olpfuncs02'], namespaces=['OLP.Props.C02'],
         required_theorems=['bid_wf_step', 'bid_wf_history', 'bid_step_conserves_value', 'bid_history_conserves_value', 'bid_amounts_nonneg', 'bid_debits_only_authorised', 'bid_refund_exact', 'bid_payout_exact', 'bid_asset_moves_only_on_acceptance', 'minusFrom_is_source', 'addTo_is_source', 'coinMinus_spec', 'coinPlus_spec', 'ledger_wrap64_is_source', 'stake_int64Of_is_source', 'checkInRange_spec', 'transfer_conserves', 'transfer_nonneg', 'negative_credit_breaks_nonneg', 'send_conserves', 'send_nonneg', 'mismatched_coins_change_total', 'toCoinWithBase_wraps', 'wrap64_exact_iff', 'history_no_creation'],
         run=run_c02, replay=replay_olh('ledger'), level='proof',
         assumptions=['the value ledger is decoded from the committed tree by the harness (record classes and units in harness/apph/ledger.go DecodeLedger); active network delegations are counted through the delegation pool balance that mirrors them (C12)',
@@ -266,7 +273,7 @@ PROPS = {
         run=run_c08, replay=replay_olh('crash'), level='proof', assumptions=SHELL_ASSUME + ['a crash is a process death with the OS page cache intact: the data directory is byte-copied at the crash point while the application is still open and the copy is reopened; power-loss durability of goleveldb/IAVL batches is trusted'],
         model_limits='premise VolDerived (volatile memory at block boundaries is a function of the persisted tree) is an application-level discipline: checked statically for the option copies (Prepare vs setupState) and dynamically by the crash twin for everything else'),
     'C09': dict(
-        lean_modules=['OLP.Props.C09', 'OLP.Props.C09Facts', 'OLP.Props.C09Funcs'],
+        lean_modules=['OLP.Props.C09', 'OLP.Props.C09Facts', 'OLP.Props.C09Funcs'], lean_targets=['olpfuncs09'],
         namespaces=['OLP.Props.C09'],
         required_theorems=['consume_monotone', 'refusal_is_permanent', 'left_pos_iff_accepted', 'consumeStrict_is_source', 'consumeAlways_is_source', 'refusal_iff_isEnough', 'getLeft_is_room', 'get_returns_view', 'deleted_reads_absent', 'discard_invisible', 'commit_persists_block',
                            'old_versions_immutable', 'reopen_returns_last_commit', 'erase_reads_same_state',
@@ -293,7 +300,7 @@ PROPS = {
         model_limits='goleveldb durability is exercised (real close/reopen) but process-kill timing inside SaveVersion is IAVL/LevelDB territory and trusted',
     ),
     'C20': dict(
-        lean_modules=['OLP.Props.C20', 'OLP.Props.C20Funcs'], namespaces=['OLP.Props.C20'],
+        lean_modules=['OLP.Props.C20', 'OLP.Props.C20Funcs'], lean_targets=['olpfuncs20'], namespaces=['OLP.Props.C20'],
         required_theorems=['renewal_exact_in_source', 'blocks_monotone_in_amount', 'changeable_is_source', 'expiredAt_is_source', 'resetAfterSale_is_source', 'purchase_expiry_lower_bounds', 'blocksFor_is_source', 'calculateExpiry_is_blocksFor', 'calculateRenewal_is_blocksFor', 'expiry_exact_in_source', 'executed_tx_is_validated', 'changes_need_valid_signature', 'at_most_one_owner', 'create_needs_absent_name', 'subs_follow_parent', 'sub_expires_with_parent',
                            'pending_sub_deleted_by_purchase', 
                            'pending_sub_follows_renewal', 'failed_tx_changes_nothing', 'changes_need_owner_or_purchase',
@@ -336,7 +343,7 @@ PROPS = {
     'C15': dict(
         # OLP.Props.C15Arith (T2 tie: threshold_is_source_finalized / _failed over the generated OLP.Gen.Arith)
         # lives in /verif; a slice workspace whose extractor does not emit Gen/Arith runs without it
-        lean_modules=['OLP.Props.C15', 'OLP.Props.C15Arith', 'OLP.Props.C15Funcs'],
+        lean_modules=['OLP.Props.C15', 'OLP.Props.C15Arith', 'OLP.Props.C15Funcs'], lean_targets=['olpfuncs15'],
         namespaces=['OLP.Props.C15'],
         required_theorems=['getVotes_is_count', 'finalized_is_source', 'failed_is_source', 'source_not_both', 'vote_only_own_slot_once', 'nonwitness_vote_does_not_count', 'wrong_index_does_not_count', 'second_vote_refused',
                            'yes_count_monotone', 'no_count_monotone', 'threshold_is_more_than_two_thirds', 'never_both_decided',
